@@ -96,11 +96,136 @@ theorem refsAt_of_docAt {inp : Input} {d : Option Url} {f : File} (h : docAt inp
     refsAt inp d = f.refs := by
   unfold refsAt; rw [h]
 
+/-! ### the caching reader keeps the spec -/
+
+theorem cacheFilter_sub (inp : Input) : ∀ (log cached : List Url), ∀ u ∈ cacheFilter inp cached log, u ∈ log
+  | [], _, u, h => by simp [cacheFilter] at h
+  | v :: rest, cached, u, h => by
+    unfold cacheFilter at h
+    split at h
+    · exact List.mem_cons_of_mem _ (cacheFilter_sub inp rest cached u h)
+    · rcases List.mem_cons.mp h with e | e
+      · subst e; exact List.mem_cons_self
+      · exact List.mem_cons_of_mem _ (cacheFilter_sub inp rest _ u e)
+
+/-- a location that is already cached never reaches the wrapped reader -/
+theorem cacheFilter_cached (inp : Input) (u : Url) : ∀ (log cached : List Url), u ∈ cached →
+    (cacheFilter inp cached log).count u = 0
+  | [], _, _ => by simp [cacheFilter]
+  | v :: rest, cached, h => by
+    unfold cacheFilter
+    split
+    · exact cacheFilter_cached inp u rest cached h
+    · next hv =>
+      have hne : v ≠ u := by intro e; subst e; exact hv h
+      rw [List.count_cons_of_ne hne]
+      apply cacheFilter_cached inp u rest
+      split
+      · exact List.mem_cons_of_mem _ h
+      · exact h
+
+/-- a cacheable location whose read succeeds reaches the wrapped reader at most once -/
+theorem cacheFilter_once (inp : Input) (u : Url) (hc : u.cacheable = true) (hs : (storeAt inp u).isSome = true) :
+    ∀ (log cached : List Url), (cacheFilter inp cached log).count u ≤ 1
+  | [], _ => by simp [cacheFilter]
+  | v :: rest, cached => by
+    unfold cacheFilter
+    split
+    · exact cacheFilter_once inp u hc hs rest cached
+    · by_cases e : v = u
+      · subst e
+        rw [List.count_cons_self]
+        have : (cacheFilter inp (if v.cacheable && (storeAt inp v).isSome then v :: cached else cached) rest).count v = 0 := by
+          apply cacheFilter_cached
+          simp [hc, hs]
+        omega
+      · rw [List.count_cons_of_ne e]
+        exact cacheFilter_once inp u hc hs rest _
+
+/-- the justification of every read survives the cache: a read that is served from the cache was kept once before -/
+theorem cacheFilter_just (inp : Input) : ∀ (log cached pre pre' : List Url),
+    (∀ c ∈ cached, c ∈ pre') → (∀ x ∈ pre, x ∈ pre') →
+    (∀ s u t, log = s ++ u :: t → Justified inp (pre ++ s) u) →
+    ∀ s u t, cacheFilter inp cached log = s ++ u :: t → Justified inp (pre' ++ s) u
+  | [], _, _, _, _, _, _, s, u, t, h => by
+    simp only [cacheFilter] at h
+    cases s <;> simp at h
+  | v :: rest, cached, pre, pre', hc, hp, hj, s, u, t, h => by
+    unfold cacheFilter at h
+    have hrest : ∀ s u t, rest = s ++ u :: t → Justified inp ((pre ++ [v]) ++ s) u := by
+      intro s u t e
+      have := hj (v :: s) u t (by simp [e])
+      simpa using this
+    split at h
+    · next hv =>
+      -- served from the cache
+      refine cacheFilter_just inp rest cached (pre ++ [v]) pre' hc ?_ hrest s u t h
+      intro x hx
+      rcases List.mem_append.mp hx with e | e
+      · exact hp x e
+      · simp at e; subst e; exact hc _ hv
+    · cases s with
+      | nil =>
+        simp only [List.nil_append, List.cons.injEq] at h
+        obtain ⟨e1, _⟩ := h
+        subst e1
+        have := hj [] v rest rfl
+        simp only [List.append_nil] at this ⊢
+        exact this.mono hp
+      | cons w s' =>
+        simp only [List.cons_append, List.cons.injEq] at h
+        obtain ⟨e1, e2⟩ := h
+        subst e1
+        have := cacheFilter_just inp rest _ (pre ++ [v]) (pre' ++ [v]) ?_ ?_ hrest s' u t e2
+        · simpa using this
+        · intro c hc'
+          split at hc'
+          · rcases List.mem_cons.mp hc' with e | e
+            · subst e; simp
+            · exact List.mem_append_left _ (hc c e)
+          · exact List.mem_append_left _ (hc c hc')
+        · intro x hx
+          rcases List.mem_append.mp hx with e | e
+          · exact List.mem_append_left _ (hp x e)
+          · exact List.mem_append_right _ e
+
 /-! ### elements and values that belong to a document -/
+
+theorem assoc_key_mem {α β : Type} [DecidableEq α] {k : α} {v : β} :
+    ∀ {l : List (α × β)}, assoc k l = some v → k ∈ l.map (·.1)
+  | [], h => by simp [assoc] at h
+  | (k', v') :: rest, h => by
+    unfold assoc at h
+    split at h
+    · next hk => subst hk; simp
+    · simp only [List.map_cons, List.mem_cons]; exact Or.inr (assoc_key_mem h)
+
+theorem storeAt_univ {inp : Input} {u : Url} {f : File} (h : storeAt inp u = some f) : some u ∈ univ inp := by
+  unfold storeAt at h
+  unfold univ
+  split at h
+  · next hr => rw [hr]; simp
+  · have := assoc_key_mem h
+    simp only [List.mem_map] at this
+    obtain ⟨e, he, hk⟩ := this
+    simp only [List.mem_cons, List.mem_map]
+    exact Or.inr ⟨e, he, by rw [hk]⟩
+
+/-- loaded, and a location of the file universe -/
+def LoadedU (inp : Input) (log : List Url) (d : Option Url) : Prop := Loaded inp log d ∧ d ∈ univ inp
+
+theorem LoadedU.mono {inp : Input} {pre pre' : List Url} {d : Option Url}
+    (h : LoadedU inp pre d) (hs : ∀ u ∈ pre, u ∈ pre') : LoadedU inp pre' d := ⟨h.1.mono hs, h.2⟩
+
+theorem LoadedU.here {inp : Input} {log : List Url} {u : Url} {f : File} (h : u ∈ log) (hs : storeAt inp u = some f) :
+    LoadedU inp log (some u) := ⟨Or.inr ⟨u, h, rfl⟩, storeAt_univ hs⟩
+
+theorem LoadedU.root {inp : Input} {log : List Url} {d : Option Url} (h : d = inp.root) : LoadedU inp log d :=
+  ⟨Or.inl h, by unfold univ; rw [h]; simp⟩
 
 def NodeIn (inp : Input) (d : Option Url) (n : Node) : Prop := ∀ r ∈ n.refs, r ∈ refsAt inp d
 def KidsIn (inp : Input) (d : Option Url) (ks : List Node) : Prop := ∀ r ∈ refsList ks, r ∈ refsAt inp d
-def ValOK (inp : Input) (log : List Url) (v : Val) : Prop := Loaded inp log v.1.1 ∧ KidsIn inp v.1.1 v.2
+def ValOK (inp : Input) (log : List Url) (v : Val) : Prop := LoadedU inp log v.1.1 ∧ KidsIn inp v.1.1 v.2
 
 theorem ValOK.mono {inp : Input} {log log' : List Url} {v : Val} (h : ValOK inp log v)
     (hs : ∀ u ∈ log, u ∈ log') : ValOK inp log' v := ⟨h.1.mono hs, h.2⟩
@@ -112,11 +237,25 @@ theorem KidsIn.tail {inp : Input} {d : Option Url} {n : Node} {ns : List Node} (
 theorem NodeIn.kids {inp : Input} {d : Option Url} {n : Node} (h : NodeIn inp d n) : KidsIn inp d n.kids :=
   fun r hr => h r (refs_kids n hr)
 
-theorem KidsIn.elem {inp : Input} {u : Url} {f : File} (h : storeAt inp u = some f) : KidsIn inp (some u) f.elem := by
+theorem refsViews_mem {k : Kind} {ks : List Node} {r : Ref} :
+    ∀ {vs : List (Kind × List Node)}, assoc k vs = some ks → r ∈ refsList ks → r ∈ refsViews vs
+  | [], h, _ => by simp [assoc] at h
+  | (k', ks') :: rest, h, hr => by
+    unfold assoc at h
+    rw [refsViews]
+    split at h
+    · cases h; exact List.mem_append_left _ hr
+    · exact List.mem_append_right _ (refsViews_mem h hr)
+
+theorem KidsIn.elem {inp : Input} {u : Url} {f : File} (k : Kind) (h : storeAt inp u = some f) :
+    KidsIn inp (some u) (f.elemAs k) := by
   intro r hr
   rw [refsAt_of_docAt (storeAt_docAt h)]
   unfold File.refs
-  simp [hr]
+  unfold File.elemAs at hr
+  split at hr
+  · next ks hks => simp [refsViews_mem hks hr]
+  · simp [refsList] at hr
 
 theorem KidsIn.tops {inp : Input} {u : Url} {f : File} (h : storeAt inp u = some f) : KidsIn inp (some u) f.tops := by
   intro r hr
@@ -149,6 +288,7 @@ structure Inv (inp : Input) (st : St) : Prop where
   just : st.foreign = false → AllJust inp st.log
   off : inp.allowed = false → OnlyRoot inp st.log
   nfo : inp.allowed = false → st.foreign = false
+  uni : Uniform inp → st.foreign = false
 
 /-- the log only grows -/
 def Ext (st st' : St) : Prop := ∀ u ∈ st.log, u ∈ st'.log
@@ -164,37 +304,37 @@ theorem Ext.trans {a b c : St} (h1 : Ext a b) (h2 : Ext b c) : Ext a c := fun u 
   unfold setMark; split <;> rfl
 @[simp] theorem setMark_foreign (c : Bool) (k : Key) (v : Val) (st : St) : (setMark c k v st).foreign = st.foreign := by
   unfold setMark; split <;> rfl
-@[simp] theorem addPend_log (c : Bool) (t : String) (k : Key) (st : St) : (addPend c t k st).log = st.log := by
+@[simp] theorem addPend_log (c : Bool) (t : String) (kd : Kind) (k : Key) (st : St) : (addPend c t kd k st).log = st.log := by
   unfold addPend; split <;> rfl
-@[simp] theorem unvisit_log (t : String) (v : Option Val) (st : St) : (unvisit t v st).log = st.log := rfl
-@[simp] theorem unvisit_foreign (t : String) (v : Option Val) (st : St) : (unvisit t v st).foreign = st.foreign := rfl
+@[simp] theorem unvisit_log (t : String) (kd : Kind) (v : Option Val) (st : St) : (unvisit t kd v st).log = st.log := rfl
+@[simp] theorem unvisit_foreign (t : String) (kd : Kind) (v : Option Val) (st : St) : (unvisit t kd v st).foreign = st.foreign := rfl
 @[simp] theorem logRead_log (al : Bool) (u : Url) (st : St) : (logRead al u st).log = st.log ++ [u] := rfl
 
-theorem Inv.tick {inp : Input} {st : St} (n : Nat) (h : Inv inp st) : Inv inp (tick n st) := ⟨h.marks, h.just, h.off, h.nfo⟩
-theorem Inv.oof {inp : Input} {st : St} (h : Inv inp st) : Inv inp { st with oof := true } := ⟨h.marks, h.just, h.off, h.nfo⟩
+theorem Inv.tick {inp : Input} {st : St} (n : Nat) (h : Inv inp st) : Inv inp (tick n st) := ⟨h.marks, h.just, h.off, h.nfo, h.uni⟩
+theorem Inv.oof {inp : Input} {st : St} (h : Inv inp st) : Inv inp { st with oof := true } := ⟨h.marks, h.just, h.off, h.nfo, h.uni⟩
 theorem Inv.inprog {inp : Input} {st : St} (l : List String) (h : Inv inp st) : Inv inp { st with inprog := l } :=
-  ⟨h.marks, h.just, h.off, h.nfo⟩
+  ⟨h.marks, h.just, h.off, h.nfo, h.uni⟩
 theorem Inv.docs {inp : Input} {st : St} (l : List Url) (h : Inv inp st) : Inv inp { st with docs := l } :=
-  ⟨h.marks, h.just, h.off, h.nfo⟩
-theorem Inv.addPend {inp : Input} {st : St} (c : Bool) (t : String) (k : Key) (h : Inv inp st) :
-    Inv inp (addPend c t k st) := by
+  ⟨h.marks, h.just, h.off, h.nfo, h.uni⟩
+theorem Inv.addPend {inp : Input} {st : St} (c : Bool) (t : String) (kd : Kind) (k : Key) (h : Inv inp st) :
+    Inv inp (addPend c t kd k st) := by
   unfold KinModel.Reads.addPend; split
   · exact h
-  · exact ⟨h.marks, h.just, h.off, h.nfo⟩
+  · exact ⟨h.marks, h.just, h.off, h.nfo, h.uni⟩
 
 theorem Inv.setMark {inp : Input} {st : St} (c : Bool) (k : Key) (v : Val) (h : Inv inp st)
     (hv : ValOK inp st.log v) : Inv inp (setMark c k v st) := by
   unfold KinModel.Reads.setMark; split
   · exact h
-  · refine ⟨?_, h.just, h.off, h.nfo⟩
+  · refine ⟨?_, h.just, h.off, h.nfo, h.uni⟩
     intro kv hkv
     rcases List.mem_cons.mp hkv with e | e
     · subst e; exact hv
     · exact h.marks kv e
 
-theorem Inv.unvisit {inp : Input} {st : St} (t : String) (v : Option Val) (h : Inv inp st)
-    (hv : ∀ x, v = some x → ValOK inp st.log x) : Inv inp (unvisit t v st) := by
-  refine ⟨?_, h.just, h.off, h.nfo⟩
+theorem Inv.unvisit {inp : Input} {st : St} (t : String) (kd : Kind) (v : Option Val) (h : Inv inp st)
+    (hv : ∀ x, v = some x → ValOK inp st.log x) : Inv inp (unvisit t kd v st) := by
+  refine ⟨?_, h.just, h.off, h.nfo, h.uni⟩
   intro kv hkv
   cases v with
   | none => exact h.marks kv hkv
@@ -208,8 +348,9 @@ theorem Inv.unvisit {inp : Input} {st : St} (t : String) (v : Option Val) (h : I
 
 theorem Inv.logRead {inp : Input} {st : St} (al : Bool) (u : Url) (h : Inv inp st)
     (hj : st.foreign = false → al = true → Justified inp st.log u)
-    (ho : inp.allowed = false → some u = inp.root ∧ al = true) : Inv inp (logRead al u st) := by
-  refine ⟨?_, ?_, ?_, ?_⟩
+    (ho : inp.allowed = false → some u = inp.root ∧ al = true) (hu : Uniform inp → al = true) :
+    Inv inp (logRead al u st) := by
+  refine ⟨?_, ?_, ?_, ?_, ?_⟩
   · intro kv hkv
     exact (h.marks kv hkv).mono (by intro x hx; simp [hx])
   · intro hf
@@ -223,6 +364,9 @@ theorem Inv.logRead {inp : Input} {st : St} (al : Bool) (u : Url) (h : Inv inp s
   · intro ha
     simp only [KinModel.Reads.logRead, Bool.or_eq_false_iff, Bool.not_eq_false']
     exact ⟨h.nfo ha, (ho ha).2⟩
+  · intro hU
+    simp only [KinModel.Reads.logRead, Bool.or_eq_false_iff, Bool.not_eq_false']
+    exact ⟨h.uni hU, hu hU⟩
 
 /-- the raw re-read of the current document is a read of a loaded location -/
 theorem Inv.reread {inp : Input} {st : St} (p : Url) (h : Inv inp st) (hl : Loaded inp st.log (some p)) :
@@ -237,6 +381,7 @@ theorem Inv.reread {inp : Input} {st : St} (p : Url) (h : Inv inp st) (hl : Load
     rcases hl with hl | ⟨u, hu, hd⟩
     · exact hl
     · cases hd; exact h.off ha _ hu
+  · intro _; rfl
 
 theorem Ext.logRead (al : Bool) (u : Url) (st : St) : Ext st (logRead al u st) := by
   intro x hx; simp [hx]
@@ -244,15 +389,18 @@ theorem Ext.logRead (al : Bool) (u : Url) (st : St) : Ext st (logRead al u st) :
 theorem Loaded.ext {inp : Input} {st st' : St} {d : Option Url} (h : Loaded inp st.log d) (e : Ext st st') :
     Loaded inp st'.log d := h.mono e
 
+theorem LoadedU.ext {inp : Input} {st st' : St} {d : Option Url} (h : LoadedU inp st.log d) (e : Ext st st') :
+    LoadedU inp st'.log d := h.mono e
+
 theorem Loaded.here {inp : Input} {log : List Url} {u : Url} (h : u ∈ log) : Loaded inp log (some u) :=
   Or.inr ⟨u, h, rfl⟩
 
 /-! ### the walkers preserve the invariant -/
 
 structure Ctx (inp : Input) (st : St) (cx : Cx) (home : Home) : Prop where
-  path : Loaded inp st.log cx.path
-  doc : Loaded inp st.log cx.doc
-  home : Loaded inp st.log home.1
+  path : LoadedU inp st.log cx.path
+  doc : LoadedU inp st.log cx.doc
+  home : LoadedU inp st.log home.1
 
 theorem Ctx.ext {inp : Input} {st st' : St} {cx : Cx} {home : Home} (h : Ctx inp st cx home) (e : Ext st st') :
     Ctx inp st' cx home := ⟨h.path.ext e, h.doc.ext e, h.home.ext e⟩
@@ -263,33 +411,39 @@ def PostB (inp : Input) (st : St) (out : St × Bool) : Prop := Inv inp out.1 ∧
 
 theorem guardExt_some {inp : Input} {cx : Cx} {home : Home} {r : Ref} {u : Url} {al : Bool}
     (h : guardExt inp cx home r = some (u, al)) :
-    inp.allowed = true ∧ u = resolvePath cx.path r.url ∧ (al = true → home.1 = cx.path) := by
+    inp.allowed = true ∧ u = resolvePath cx.path r.url ∧ (al = true → u = resolvePath home.1 r.url) := by
   unfold guardExt at h
   split at h
   · next ha =>
     simp only [Option.some.injEq, Prod.mk.injEq] at h
     refine ⟨ha, h.1.symm, ?_⟩
-    intro hal; rw [← h.2] at hal; exact of_decide_eq_true hal
+    intro hal; rw [← h.2] at hal; rw [← h.1]; exact of_decide_eq_true hal
   · cases h
 
-/-- a guarded read of the resolution of `r` (found in the document at `home`) is justified when
-    `documentPath` is that document's location -/
+/-- a guarded read of the resolution of `r` (found in the document at `home`) is justified when the location
+    obtained from `documentPath` is the resolution against that document's own location -/
 theorem guarded_read_justified {inp : Input} {st : St} {cx : Cx} {home : Home} {r : Ref} {u : Url} {al : Bool}
-    (hg : guardExt inp cx home r = some (u, al)) (hh : Loaded inp st.log home.1)
+    (hg : guardExt inp cx home r = some (u, al)) (hh : LoadedU inp st.log home.1) (hp : cx.path ∈ univ inp)
     (hr : r ∈ refsAt inp home.1) (hf : r.form ≠ Form.internal) :
-    (st.foreign = false → al = true → Justified inp st.log u) ∧ (inp.allowed = false → some u = inp.root ∧ al = true) := by
+    (st.foreign = false → al = true → Justified inp st.log u) ∧ (inp.allowed = false → some u = inp.root ∧ al = true) ∧
+    (Uniform inp → al = true) := by
   obtain ⟨ha, hu, hal⟩ := guardExt_some hg
-  refine ⟨?_, ?_⟩
+  refine ⟨?_, ?_, ?_⟩
   · intro _ h
-    have := hal h
-    exact Or.inr ⟨home.1, hh, r, hr, hf, by rw [hu, this]⟩
+    exact Or.inr ⟨home.1, hh.1, r, hr, hf, hal h⟩
   · intro h; rw [ha] at h; cases h
+  · intro hU
+    unfold guardExt at hg
+    rw [if_pos ha] at hg
+    simp only [Option.some.injEq, Prod.mk.injEq] at hg
+    rw [← hg.2]
+    exact decide_eq_true (hU home.1 hh.2 r hr hf cx.path hp)
 
-theorem drill_post {inp : Input} {st : St} {cx : Cx} {cdoc : Option Url} (frag : String) (kind : Kind)
-    (hI : Inv inp st) (hp : Loaded inp st.log cx.path) (hd : Loaded inp st.log cdoc) :
-    Inv inp (drill inp cx cdoc frag kind st).1 ∧ Ext st (drill inp cx cdoc frag kind st).1 ∧
-    ∀ thome t, (drill inp cx cdoc frag kind st).2 = some (thome, t) →
-      Loaded inp (drill inp cx cdoc frag kind st).1.log thome.1 ∧ NodeIn inp thome.1 t := by
+theorem drill_post {inp : Input} {st : St} {cdoc cpath : Option Url} (frag : String) (kind : Kind)
+    (hI : Inv inp st) (hp : LoadedU inp st.log cpath) (hd : LoadedU inp st.log cdoc) :
+    Inv inp (drill inp cdoc cpath frag kind st).1 ∧ Ext st (drill inp cdoc cpath frag kind st).1 ∧
+    ∀ thome t, (drill inp cdoc cpath frag kind st).2 = some (thome, t) →
+      LoadedU inp (drill inp cdoc cpath frag kind st).1.log thome.1 ∧ NodeIn inp thome.1 t := by
   unfold drill
   split
   · next t ht =>
@@ -307,9 +461,9 @@ theorem drill_post {inp : Input} {st : St} {cx : Cx} {cdoc : Option Url} (frag :
     · exact ⟨hI.tick 9, Ext.refl st, by intro _ _ h; cases h⟩
   · split
     · exact ⟨hI.tick 17, Ext.refl st, by intro _ _ h; cases h⟩
-    · next p hpath =>
-      have hlp : Loaded inp st.log (some p) := by rw [← hpath]; exact hp
-      have hrr := hI.reread p hlp
+    · next p =>
+      have hlp : LoadedU inp st.log (some p) := hp
+      have hrr := hI.reread p hlp.1
       split
       · exact ⟨hrr.tick 12, Ext.logRead true p st, by intro _ _ h; cases h⟩
       · next file hfile =>
@@ -322,7 +476,7 @@ theorem drill_post {inp : Input} {st : St} {cx : Cx} {cdoc : Option Url} (frag :
             simp only [Option.some.injEq, Prod.mk.injEq] at h
             obtain ⟨h1, h2⟩ := h
             subst h1; subst h2
-            exact ⟨Loaded.here (by simp), NodeIn.raw hfile ht⟩
+            exact ⟨LoadedU.here (by simp) hfile, NodeIn.raw hfile ht⟩
         · exact ⟨hrr.tick 13, Ext.logRead true p st, by intro _ _ h; cases h⟩
 
 theorem okRes_val {ok : Bool} {v w : Val} (h : okRes ok v = Res.ok (some w)) : w = v := by
@@ -335,15 +489,16 @@ def PResolve (inp : Input) (f : Nat) : Prop :=
     PostR inp st (resolve inp f cx home copy n st)
 def PFrag (inp : Input) (f : Nat) : Prop :=
   ∀ cx home copy id kind r cdoc cpath st, Inv inp st → Ctx inp st cx home →
-    Loaded inp st.log cdoc → Loaded inp st.log cpath →
+    LoadedU inp st.log cdoc → LoadedU inp st.log cpath →
     PostR inp st (fragStep inp f cx home copy id kind r cdoc cpath st)
 def PWalk (inp : Input) (f : Nat) : Prop :=
   ∀ cx home ks st, Inv inp st → Ctx inp st cx home → KidsIn inp home.1 ks →
     PostB inp st (walk inp f cx home ks st)
 def PLoad (inp : Input) (f : Nat) : Prop :=
   ∀ al u st, Inv inp st → (st.foreign = false → al = true → Justified inp st.log u) →
-    (inp.allowed = false → some u = inp.root ∧ al = true) →
-    PostB inp st (loadDoc inp f al u st) ∧ ((loadDoc inp f al u st).2 = true → u ∈ (loadDoc inp f al u st).1.log)
+    (inp.allowed = false → some u = inp.root ∧ al = true) → (Uniform inp → al = true) →
+    PostB inp st (loadDoc inp f al u st) ∧
+      ((loadDoc inp f al u st).2 = true → LoadedU inp (loadDoc inp f al u st).1.log (some u))
 
 theorem walk_step {inp : Input} {f : Nat} (ihR : PResolve inp f) (ihW : PWalk inp f) : PWalk inp (f + 1) := by
   intro cx home ks st hI hC hk
@@ -360,28 +515,48 @@ theorem walk_step {inp : Input} {f : Nat} (ihR : PResolve inp f) (ihW : PWalk in
       exact ⟨hw.1, hr.2.1.trans hw.2⟩
 
 theorem load_step {inp : Input} {f : Nat} (ihW : PWalk inp f) : PLoad inp (f + 1) := by
-  intro al u st hI hj ho
-  have hrd := hI.logRead al u hj ho
+  intro al u st hI hj ho hU
+  have hrd := hI.logRead al u hj ho hU
   have he := Ext.logRead al u st
   have hu : u ∈ (logRead al u st).log := by simp
   simp only [loadDoc]
   split
-  · exact ⟨⟨hrd.tick 12, he⟩, fun _ => hu⟩
+  · exact ⟨⟨hrd.tick 12, he⟩, fun h => by cases h⟩
   · next file hfile =>
+    have hl : LoadedU inp (logRead al u st).log (some u) := LoadedU.here hu hfile
     split
-    · exact ⟨⟨hrd.tick 6, he⟩, fun _ => hu⟩
+    · exact ⟨⟨hrd.tick 6, he⟩, fun _ => by simpa using hl⟩
     · split
       · have hw := ihW ⟨some u, some u⟩ (some u, 0) file.tops { (logRead al u st) with docs := u :: st.docs }
-          (hrd.docs _) ⟨Loaded.here hu, Loaded.here hu, Loaded.here hu⟩ (KidsIn.tops hfile)
-        exact ⟨⟨hw.1, he.trans hw.2⟩, fun _ => hw.2 u hu⟩
-      · exact ⟨⟨(hrd.docs _).tick 13, he⟩, fun _ => hu⟩
+          (hrd.docs _) ⟨hl, hl, hl⟩ (KidsIn.tops hfile)
+        exact ⟨⟨hw.1, he.trans hw.2⟩, fun _ => hl.mono hw.2⟩
+      · exact ⟨⟨(hrd.docs _).tick 13, he⟩, fun h => by cases h⟩
+
+/-- the common tail of every resolver: assign the value, walk its sub-elements with the context `wcx`, run the
+    deferred `unvisitRef` -/
+theorem walk_mark_unvisit {inp : Input} {f : Nat} (ihW : PWalk inp f) {st st2 : St} (wcx : Cx) (key : Key)
+    (copy : Bool) (text : String) (kind : Kind) (val : Val)
+    (hI2 : Inv inp st2) (he : Ext st st2) (hv : ValOK inp st2.log val)
+    (hp : LoadedU inp st2.log wcx.path) (hd : LoadedU inp st2.log wcx.doc) :
+    PostR inp st
+      (match walk inp f wcx val.1 val.2 (setMark copy key val st2) with
+       | (st3, ok) => (unvisit text kind (some val) st3, okRes ok val)) := by
+  have hw := ihW wcx val.1 val.2 (setMark copy key val st2) (hI2.setMark copy _ _ hv)
+    ⟨by simpa using hp, by simpa using hd, by simpa using hv.1⟩ hv.2
+  generalize walk inp f wcx val.1 val.2 (setMark copy key val st2) = out at hw ⊢
+  obtain ⟨st3, ok⟩ := out
+  have he3 : Ext st2 st3 := by intro x hx; exact hw.2 x (by simpa using hx)
+  have hv3 : ValOK inp st3.log val := hv.mono he3
+  refine ⟨hw.1.unvisit text kind (some val) (by intro x hx; cases hx; exact hv3), ?_, ?_⟩
+  · intro x hx; simpa using he3 x (he x hx)
+  · intro v h; rw [okRes_val h]; simpa using hv3
 
 theorem frag_step {inp : Input} {f : Nat} (ihR : PResolve inp f) (ihW : PWalk inp f) : PFrag inp (f + 1) := by
   intro cx home copy id kind r cdoc cpath st hI hC hcd hcp
   simp only [fragStep]
   split
   · exact ⟨hI.tick 14, Ext.refl st, by intro _ h; cases h⟩
-  · have hd := drill_post (cx := cx) (cdoc := cdoc) r.frag kind hI hC.path hcd
+  · have hd := drill_post (cdoc := cdoc) (cpath := cpath) r.frag kind hI hcp hcd
     split
     · next st1 heq => rw [heq] at hd; exact ⟨hd.1, hd.2.1, by intro _ h; cases h⟩
     · next st1 thome t heq =>
@@ -389,25 +564,35 @@ theorem frag_step {inp : Input} {f : Nat} (ihR : PResolve inp f) (ihW : PWalk in
       obtain ⟨hI1, he1, ht⟩ := hd
       obtain ⟨hlt, hnt⟩ := ht thome t rfl
       simp only at hI1 he1 hlt
+      -- the recursive call on the copy, with (componentDoc, componentPath)
+      have hr := ihR ⟨cdoc, cpath⟩ thome true t st1 hI1 ⟨hcp.ext he1, hcd.ext he1, hlt⟩ hnt
       split
       · -- path item: (doc, documentPath) are re-assigned
-        have hv : ValOK inp st1.log (thome, t.kids) := ⟨hlt, hnt.kids⟩
-        have hw := ihW ⟨cdoc, cpath⟩ thome t.kids (setMark copy (home, id) (thome, t.kids) (tick 10 st1))
-          ((hI1.tick 10).setMark copy _ _ hv)
-          ⟨by simpa using hcp.ext he1, by simpa using hcd.ext he1, by simpa using hlt⟩ hnt.kids
-        generalize walk inp f ⟨cdoc, cpath⟩ thome t.kids (setMark copy (home, id) (thome, t.kids) (tick 10 st1)) = out at hw ⊢
-        obtain ⟨st2, ok⟩ := out
-        · have he2 : Ext st1 st2 := by intro x hx; exact hw.2 x (by simpa using hx)
-          have hv2 : ValOK inp st2.log (thome, t.kids) := hv.mono he2
-          refine ⟨hw.1.unvisit r.text (some (thome, t.kids)) (by intro x hx; cases hx; exact hv2), ?_, ?_⟩
-          · intro x hx; simpa using he2 x (he1 x hx)
-          · intro v h; rw [okRes_val h]; simpa using hv2
-      · have hr := ihR ⟨cdoc, cpath⟩ thome true t st1 hI1 ⟨hcp.ext he1, hcd.ext he1, hlt⟩ hnt
         split
+        · have hv : ValOK inp st1.log (thome, t.kids) := ⟨hlt, hnt.kids⟩
+          exact walk_mark_unvisit ihW ⟨cdoc, cpath⟩ (home, id) copy r.text kind (thome, t.kids)
+            (hI1.tick 10) (by intro x hx; simpa using he1 x hx) (by simpa using hv)
+            (by simpa using hcp.ext he1) (by simpa using hcd.ext he1)
+        · split
+          · next st2 heq2 => rw [heq2] at hr; exact ⟨hr.1, he1.trans hr.2.1, by intro _ h; cases h⟩
+          · next st2 heq2 =>
+            rw [heq2] at hr
+            refine ⟨(hr.1.unvisit _ _ none (by intro _ h; cases h)).tick 19, ?_, by intro _ h; cases h⟩
+            intro x hx; simpa using hr.2.1 x (he1 x hx)
+          · next st2 val heq2 =>
+            rw [heq2] at hr
+            obtain ⟨hI2, he2, hv2⟩ := hr
+            have hv : ValOK inp st2.log val := hv2 val rfl
+            simp only at hI2 he2 hv
+            have he02 : Ext st st2 := he1.trans he2
+            exact walk_mark_unvisit ihW ⟨cdoc, cpath⟩ (home, id) copy r.text kind val
+              (hI2.tick 20) (by intro x hx; simpa using he02 x hx) (by simpa using hv)
+              (by simpa using hcp.ext he02) (by simpa using hcd.ext he02)
+      · split
         · next st2 heq2 => rw [heq2] at hr; exact ⟨hr.1, he1.trans hr.2.1, by intro _ h; cases h⟩
         · next st2 heq2 =>
           rw [heq2] at hr
-          refine ⟨(hr.1.unvisit _ none (by intro _ h; cases h)).tick 16, ?_, by intro _ h; cases h⟩
+          refine ⟨(hr.1.unvisit _ _ none (by intro _ h; cases h)).tick 16, ?_, by intro _ h; cases h⟩
           intro x hx; simpa using hr.2.1 x (he1 x hx)
         · next st2 val heq2 =>
           rw [heq2] at hr
@@ -415,15 +600,8 @@ theorem frag_step {inp : Input} {f : Nat} (ihR : PResolve inp f) (ihW : PWalk in
           have hv : ValOK inp st2.log val := hv2 val rfl
           simp only at hI2 he2 hv
           have he02 : Ext st st2 := he1.trans he2
-          have hw := ihW cx val.1 val.2 (setMark copy (home, id) val st2) (hI2.setMark copy _ _ hv)
-            ⟨by simpa using hC.path.ext he02, by simpa using hC.doc.ext he02, by simpa using hv.1⟩ hv.2
-          generalize walk inp f cx val.1 val.2 (setMark copy (home, id) val st2) = out at hw ⊢
-          obtain ⟨st3, ok⟩ := out
-          · have he3 : Ext st2 st3 := by intro x hx; exact hw.2 x (by simpa using hx)
-            have hv3 : ValOK inp st3.log val := hv.mono he3
-            refine ⟨hw.1.unvisit r.text (some val) (by intro x hx; cases hx; exact hv3), ?_, ?_⟩
-            · intro x hx; simpa using he3 x (he02 x hx)
-            · intro v h; rw [okRes_val h]; simpa using hv3
+          exact walk_mark_unvisit ihW cx (home, id) copy r.text kind val hI2 he02 hv
+            (hC.path.ext he02) (hC.doc.ext he02)
 
 theorem resolve_step {inp : Input} {f : Nat} (ihF : PFrag inp f) (ihW : PWalk inp f) (ihL : PLoad inp f) :
     PResolve inp (f + 1) := by
@@ -449,7 +627,7 @@ theorem resolve_step {inp : Input} {f : Nat} (ihF : PFrag inp f) (ihW : PWalk in
       intro w h; cases h
       exact hI.marks _ (mem_assoc hv)
     · split
-      · exact ⟨(hI.addPend copy r.text (home, id)).tick 2, by intro x hx; simpa using hx, by intro _ h; cases h⟩
+      · exact ⟨(hI.addPend copy r.text kind (home, id)).tick 2, by intro x hx; simpa using hx, by intro _ h; cases h⟩
       · have hI0 : Inv inp { st with inprog := r.text :: st.inprog } := hI.inprog _
         split
         · -- .whole: loadSingleElementFromURI
@@ -457,39 +635,29 @@ theorem resolve_step {inp : Input} {f : Nat} (ihF : PFrag inp f) (ihW : PWalk in
           split
           · exact ⟨hI0.tick 3, Ext.refl st, by intro _ h; cases h⟩
           · next u al hg =>
-            have hj := guarded_read_justified (st := { st with inprog := r.text :: st.inprog }) hg hC.home hrin
+            have hj := guarded_read_justified (st := { st with inprog := r.text :: st.inprog }) hg hC.home hC.path.2 hrin
               (by rw [hform]; decide)
-            have hrd := hI0.logRead al u hj.1 hj.2
+            have hrd := hI0.logRead al u hj.1 hj.2.1 hj.2.2
             have he : Ext st (logRead al u { st with inprog := r.text :: st.inprog }) := by
               intro x hx; simp [hx]
             have hu : u ∈ (logRead al u { st with inprog := r.text :: st.inprog }).log := by simp
             split
             · exact ⟨hrd.tick 12, he, by intro _ h; cases h⟩
             · next file hfile =>
+              have hl : LoadedU inp (logRead al u { st with inprog := r.text :: st.inprog }).log (some u) :=
+                LoadedU.here hu hfile
               split
-              · have hv : ValOK inp (logRead al u { st with inprog := r.text :: st.inprog }).log
-                    ((some u, st.log.length + 1), file.elem) := ⟨Loaded.here hu, KidsIn.elem hfile⟩
-                have hw := ihW (if kind.updatesPath then ⟨cx.doc, some u⟩ else cx) (some u, st.log.length + 1) file.elem
-                  (setMark copy (home, id) ((some u, st.log.length + 1), file.elem)
-                    (tick 4 (logRead al u { st with inprog := r.text :: st.inprog })))
-                  ((hrd.tick 4).setMark copy _ _ hv)
-                  (by
-                    have hc := hC.ext he
-                    split
-                    · exact ⟨by simpa using Loaded.here hu, by simpa using hc.doc, by simpa using Loaded.here hu⟩
-                    · exact ⟨by simpa using hc.path, by simpa using hc.doc, by simpa using Loaded.here hu⟩)
-                  (KidsIn.elem hfile)
-                generalize walk inp f (if kind.updatesPath then ⟨cx.doc, some u⟩ else cx) (some u, st.log.length + 1) file.elem
-                  (setMark copy (home, id) ((some u, st.log.length + 1), file.elem)
-                    (tick 4 (logRead al u { st with inprog := r.text :: st.inprog }))) = out at hw ⊢
-                obtain ⟨st1, ok⟩ := out
-                have he1 : Ext (logRead al u { st with inprog := r.text :: st.inprog }) st1 := by
-                  intro x hx; exact hw.2 x (by simpa using hx)
-                have hv1 := hv.mono he1
-                refine ⟨hw.1.unvisit r.text (some ((some u, st.log.length + 1), file.elem))
-                  (by intro x hx; cases hx; exact hv1), ?_, ?_⟩
-                · intro x hx; simpa using he1 x (he x hx)
-                · intro v h; rw [okRes_val h]; simpa using hv1
+              · split
+                · exact ⟨hrd.tick 22, he, by intro _ h; cases h⟩
+                split
+                · exact ⟨(hrd.unvisit _ _ none (by intro _ h; cases h)).tick 23, by intro x hx; simpa using he x hx,
+                    by intro _ h; cases h⟩
+                have hv : ValOK inp (logRead al u { st with inprog := r.text :: st.inprog }).log
+                    ((some u, st.log.length + 1), file.elemAs kind) := ⟨hl, KidsIn.elem kind hfile⟩
+                exact walk_mark_unvisit ihW ⟨cx.doc, some u⟩ (home, id) copy r.text kind
+                  ((some u, st.log.length + 1), file.elemAs kind) (hrd.tick 4)
+                  (by intro x hx; simpa using he x hx) (by simpa using hv)
+                  (by simpa using hl) (by simpa using (hC.ext he).doc)
               · exact ⟨hrd.tick 13, he, by intro _ h; cases h⟩
         · -- .internal
           next hform =>
@@ -501,9 +669,9 @@ theorem resolve_step {inp : Input} {f : Nat} (ihF : PFrag inp f) (ihW : PWalk in
           split
           · exact ⟨hI0.tick 3, Ext.refl st, by intro _ h; cases h⟩
           · next u al hg =>
-            have hj := guarded_read_justified (st := { st with inprog := r.text :: st.inprog }) hg hC.home hrin
+            have hj := guarded_read_justified (st := { st with inprog := r.text :: st.inprog }) hg hC.home hC.path.2 hrin
               (by rw [hform]; decide)
-            have hl := ihL al u { st with inprog := r.text :: st.inprog } hI0 hj.1 hj.2
+            have hl := ihL al u { st with inprog := r.text :: st.inprog } hI0 hj.1 hj.2.1 hj.2.2
             split
             · next st1 heq => rw [heq] at hl; exact ⟨hl.1.1, hl.1.2, by intro _ h; cases h⟩
             · next st1 heq =>
@@ -513,7 +681,7 @@ theorem resolve_step {inp : Input} {f : Nat} (ihF : PFrag inp f) (ihW : PWalk in
               simp only at hI1 he1 hu
               have he1' : Ext st (tick 5 st1) := by intro x hx; simpa using he1 x hx
               have hp := ihF cx home copy id kind r (some u) (some u) (tick 5 st1) (hI1.tick 5) (hC.ext he1')
-                (Loaded.here (by simpa using hu)) (Loaded.here (by simpa using hu))
+                (by simpa using hu) (by simpa using hu)
               exact ⟨hp.1, he1'.trans hp.2.1, hp.2.2⟩
 
 /-- every walker of the model preserves the invariant, for every amount of fuel -/
@@ -532,7 +700,7 @@ theorem all_steps (inp : Input) : ∀ f, PResolve inp f ∧ PFrag inp f ∧ PWal
       cases ks with
       | nil => simp only [walk]; exact ⟨hI, Ext.refl st⟩
       | cons n ns => simp only [walk]; exact ⟨hI.oof, Ext.refl st⟩
-    · intro al u st hI _ _
+    · intro al u st hI _ _ _
       simp only [loadDoc]
       exact ⟨⟨hI.oof, Ext.refl st⟩, by intro h; cases h⟩
   | succ f ih =>
@@ -540,7 +708,7 @@ theorem all_steps (inp : Input) : ∀ f, PResolve inp f ∧ PFrag inp f ∧ PWal
     exact ⟨resolve_step ihF ihW ihL, frag_step ihR ihW, walk_step ihR ihW, load_step ihW⟩
 
 theorem Inv.init (inp : Input) : Inv inp St.init := by
-  refine ⟨?_, fun _ => AllJust.nil inp, ?_, fun _ => rfl⟩
+  refine ⟨?_, fun _ => AllJust.nil inp, ?_, fun _ => rfl, fun _ => rfl⟩
   · intro kv h; simp [St.init] at h
   · intro _ u h; simp [St.init] at h
 
@@ -555,7 +723,7 @@ theorem load_inv (inp : Input) (fuel : Nat) : Inv inp (load inp fuel).1 := by
     · exact Inv.init inp
     · next u hu =>
       have hroot : some u = inp.root := by unfold Input.root; rw [he, hu]
-      exact (hL true u St.init (Inv.init inp) (fun _ _ => Or.inl hroot) (fun _ => ⟨hroot, rfl⟩)).1.1
+      exact (hL true u St.init (Inv.init inp) (fun _ _ => Or.inl hroot) (fun _ => ⟨hroot, rfl⟩) (fun _ => rfl)).1.1
   · -- LoadFromDataWithPath
     next he =>
     split
@@ -563,7 +731,7 @@ theorem load_inv (inp : Input) (fuel : Nat) : Inv inp (load inp fuel).1 := by
     · next u hu =>
       have hroot : some u = inp.root := by unfold Input.root; rw [he, hu]
       split
-      · have hl : Loaded inp ({ St.init with docs := [u] } : St).log (some u) := Or.inl hroot
+      · have hl : LoadedU inp ({ St.init with docs := [u] } : St).log (some u) := LoadedU.root hroot
         next hparse =>
         have hk : KidsIn inp (some u) inp.rootFile.tops := by
           intro r hr
@@ -576,7 +744,7 @@ theorem load_inv (inp : Input) (fuel : Nat) : Inv inp (load inp fuel).1 := by
     next he =>
     have hroot : (none : Option Url) = inp.root := by unfold Input.root; rw [he]
     split
-    · have hl : Loaded inp St.init.log none := Or.inl hroot
+    · have hl : LoadedU inp St.init.log none := LoadedU.root hroot
       have hk : KidsIn inp none inp.rootFile.tops := by
         intro r hr
         have : docAt inp none = some inp.rootFile := by unfold docAt; simp [hroot]
